@@ -33,6 +33,8 @@ static void ctx_dtor(void *data) {
     M_DEBUG("Ctx '%s' dtor.\n", context->name);
 
     deregister_ctx_src(context, &context->tick.src);
+    /* It may have been created (by a task source of a manually started module) without ever looping */
+    m_thpool_free(&context->thpool, false);
     m_map_free(&context->modules);
     poll_destroy(&context->ppriv);
     memhook._free(context->ppriv.data);
